@@ -30,19 +30,42 @@ import (
 )
 
 // ---------------------------------------------------------------------------
-// fixed universe: 3 sponsors x 5 transactions of different sizes and expiries
+// fixed universe: 3 sponsors x 5 transactions of different sizes and expiries.
+// Accounts 0..2 are the sponsors, accounts 3..5 are pure actors that never
+// sponsor (and therefore never bond) anything. Three of the five transactions
+// of every sponsor are fee-delegated (Auth.Actor() != Auth.Sponsor()).
 // ---------------------------------------------------------------------------
 
 const (
 	c38Sponsors      = 3
 	c38TxsPerSponsor = 5
+	c38Accounts      = 2 * c38Sponsors // sponsors + pure actors
 )
 
 type c38Tx struct {
 	tx      *chain.Transaction
 	sponsor int
+	actor   int // account index of Auth.Actor(); == sponsor for self-paid txs
 	size    uint64
 	expiry  int64
+}
+
+// c38ActorOf fixes who acts in transaction j of sponsor s:
+//
+//	j=0,3: the sponsor itself
+//	j=1:   the next sponsor (an account that has bonds of its own)
+//	j=2:   pure actor account 3+s (never has a pending bond)
+//	j=4:   the previous sponsor
+func c38ActorOf(s, j int) int {
+	switch j {
+	case 1:
+		return (s + 1) % c38Sponsors
+	case 2:
+		return c38Sponsors + s
+	case 4:
+		return (s + c38Sponsors - 1) % c38Sponsors
+	}
+	return s
 }
 
 var c38Pool []c38Tx // index = sponsor*c38TxsPerSponsor + j
@@ -63,7 +86,7 @@ func c38BuildPool() error {
 		for j := 0; j < c38TxsPerSponsor; j++ {
 			auth := &chaintest.TestAuth{
 				NumComputeUnits: 1,
-				ActorAddress:    c38Sponsor(s),
+				ActorAddress:    c38Sponsor(c38ActorOf(s, j)),
 				SponsorAddress:  c38Sponsor(s),
 				Start:           -1,
 				End:             -1,
@@ -88,10 +111,11 @@ func c38BuildPool() error {
 			if err != nil {
 				return err
 			}
-			if tx.GetSponsor() != c38Sponsor(s) || tx.GetExpiry() != expiry || tx.Size() <= 0 {
-				return fmt.Errorf("pool tx %d/%d has unexpected sponsor/expiry/size", s, j)
+			a := c38ActorOf(s, j)
+			if tx.GetSponsor() != c38Sponsor(s) || tx.Auth.Sponsor() != c38Sponsor(s) || tx.Auth.Actor() != c38Sponsor(a) || tx.GetExpiry() != expiry || tx.Size() <= 0 {
+				return fmt.Errorf("pool tx %d/%d has unexpected sponsor/actor/expiry/size", s, j)
 			}
-			pool = append(pool, c38Tx{tx: tx, sponsor: s, size: uint64(tx.Size()), expiry: expiry})
+			pool = append(pool, c38Tx{tx: tx, sponsor: s, actor: a, size: uint64(tx.Size()), expiry: expiry})
 		}
 	}
 	seen := map[ids.ID]bool{}
@@ -176,6 +200,8 @@ type c38Stats struct {
 	unbondEffective, unbondNoop                                  int
 	accepts, settledByAccept, settledByExpiry, zeroChecks        int
 	maxChanges, innerErrs, keptFee, replacedFee                  int
+	// fee-delegated txs (actor != sponsor)
+	delegBondsOK, delegReleases, delegActorLiveSponsor, delegActorNoBond, delegActorPure int
 }
 
 type c38Monitor struct {
@@ -194,6 +220,7 @@ type c38Monitor struct {
 	fail      *c38Fail
 	stats     c38Stats
 	nontrivia bool
+	delegated bool // the history released the bond of a fee-delegated tx
 }
 
 var _ fdsmr.Bonder[*chain.Transaction] = (*c38Monitor)(nil)
@@ -237,6 +264,13 @@ func (m *c38Monitor) pending(s int) uint64 {
 	return binary.BigEndian.Uint64(b)
 }
 
+func c38AccountName(a int) string {
+	if a < c38Sponsors {
+		return fmt.Sprintf("sponsor %d", a)
+	}
+	return fmt.Sprintf("pure actor account %d", a)
+}
+
 func (m *c38Monitor) modelSum(s int) *big.Int {
 	sum := new(big.Int)
 	for i, fee := range m.bonded {
@@ -256,15 +290,16 @@ func (m *c38Monitor) modelHasSponsor(s int) bool {
 	return false
 }
 
-// checkAll compares every sponsor's pending balance with the model.
+// checkAll compares every account's pending balance with the model (the model
+// keys everything on the sponsor: pure actor accounts never have a bond).
 func (m *c38Monitor) checkAll(when string) {
-	for s := 0; s < c38Sponsors; s++ {
+	for s := 0; s < c38Accounts; s++ {
 		got := new(big.Int).SetUint64(m.pending(s))
 		want := m.modelSum(s)
 		if !m.modelHasSponsor(s) {
 			m.stats.zeroChecks++
 			if got.Sign() != 0 {
-				m.failf("C38/pending-nonzero-when-all-settled", "%s: sponsor %d has no bonded unsettled tx but pending=%s", when, s, got)
+				m.failf("C38/pending-nonzero-when-all-settled", "%s: %s has no bonded unsettled tx but pending=%s", when, c38AccountName(s), got)
 			}
 			continue
 		}
@@ -292,17 +327,17 @@ func (m *c38Monitor) Bond(ctx context.Context, mutable state.Mutable, tx *chain.
 	}
 	p := c38Pool[i]
 	s := p.sponsor
-	others := [c38Sponsors]uint64{}
-	for o := 0; o < c38Sponsors; o++ {
+	others := [c38Accounts]uint64{}
+	for o := 0; o < c38Accounts; o++ {
 		others[o] = m.pending(o)
 	}
 	before := others[s]
 	ok, err := m.bonder.Bond(ctx, mutable, tx, rate)
 	after := m.pending(s)
-	when := fmt.Sprintf("Bond(t%d,size=%d,rate=%d)=(%v,%v) sponsor %d max=%d pending %d->%d", i, p.size, rate, ok, err, s, m.max[s], before, after)
-	for o := 0; o < c38Sponsors; o++ {
+	when := fmt.Sprintf("Bond(t%d,size=%d,rate=%d)=(%v,%v) sponsor %d actor %d max=%d pending %d->%d", i, p.size, rate, ok, err, s, p.actor, m.max[s], before, after)
+	for o := 0; o < c38Accounts; o++ {
 		if o != s && m.pending(o) != others[o] {
-			m.failf("C38/bond-changed-other-sponsor", "%s changed pending of sponsor %d: %d->%d", when, o, others[o], m.pending(o))
+			m.failf("C38/bond-changed-other-sponsor", "%s changed pending of %s: %d->%d", when, c38AccountName(o), others[o], m.pending(o))
 		}
 	}
 	if err != nil {
@@ -318,6 +353,9 @@ func (m *c38Monitor) Bond(ctx context.Context, mutable state.Mutable, tx *chain.
 		return ok, err
 	}
 	m.stats.bondsOK++
+	if p.actor != s {
+		m.stats.delegBondsOK++
+	}
 	m.lastOKs = append(m.lastOKs, i)
 	old, live := m.bonded[i]
 	if !live && !fee.IsUint64() {
@@ -371,14 +409,29 @@ func (m *c38Monitor) Unbond(tx *chain.Transaction) error {
 		m.failf("C38/harness", "Unbond of a tx outside the pool")
 		return errors.New("harness")
 	}
-	s := c38Pool[i].sponsor
-	before := m.pending(s)
+	s, a := c38Pool[i].sponsor, c38Pool[i].actor
+	others := [c38Accounts]uint64{}
+	for o := 0; o < c38Accounts; o++ {
+		others[o] = m.pending(o)
+	}
+	before := others[s]
+	actorLive := a != s && a < c38Sponsors && m.modelHasSponsor(a) // before the release
 	err := m.bonder.Unbond(tx)
 	after := m.pending(s)
-	when := fmt.Sprintf("Unbond(t%d)=%v sponsor %d pending %d->%d", i, err, s, before, after)
+	when := fmt.Sprintf("Unbond(t%d)=%v sponsor %d actor %d pending %d->%d", i, err, s, a, before, after)
 	if err != nil {
 		m.failf("C38/unbond-error", "%s: unexpected error on a healthy db", when)
 		return err
+	}
+	// a release concerns the sponsor's pending balance only
+	for o := 0; o < c38Accounts; o++ {
+		if now := m.pending(o); o != s && now != others[o] {
+			who := ""
+			if o == a {
+				who = " (the tx's actor, which is not its sponsor)"
+			}
+			m.failf("C38/unbond-changed-other-account", "%s changed pending of %s%s: %d->%d", when, c38AccountName(o), who, others[o], now)
+		}
 	}
 	fee, live := m.bonded[i]
 	if !live {
@@ -389,6 +442,18 @@ func (m *c38Monitor) Unbond(tx *chain.Transaction) error {
 		return nil
 	}
 	m.stats.unbondEffective++
+	if a != s {
+		m.delegated = true
+		m.stats.delegReleases++
+		switch {
+		case a >= c38Sponsors:
+			m.stats.delegActorPure++
+		case actorLive:
+			m.stats.delegActorLiveSponsor++
+		default:
+			m.stats.delegActorNoBond++
+		}
+	}
 	delete(m.bonded, i)
 	dup := m.dupLive[i]
 	delete(m.dupLive, i)
@@ -725,9 +790,9 @@ func c38GenNode(rng *rand.Rand) c38Case {
 
 func TestC38(t *testing.T) {
 	r := kit.Start(t, "C38", "exploration")
-	r.Rule("histories over a fixed pool of 3 sponsors x 5 transactions (different sizes, expiries 10..50): (a) every sequence up to length L of {bond t0/t1 at two rates, unbond t0/t1, set a small/large maximum} on one sponsor (exhaustive), (b) random direct Bonder histories (setmax / bond / unbond, a third of the bonds and most unbonds re-use an earlier tx), (c) random fdsmr.Node histories (BuildChunk with duplicates within and across chunks, Accept with scripted executed chunks and block timestamps that expire txs, scripted inner DSMR errors) over the real Bonder on memdb. Every Bond/Unbond return value and the pending balance of every sponsor after every step are compared with a map model (sum of fees, computed with math/big, of bonded txs neither accepted nor expired). Non-trivial = the history bonds a tx again (while its bond is live or after it settled); distinct = distinct op sequence.")
+	r.Rule("histories over a fixed pool of 3 sponsors x 5 transactions (different sizes, expiries 10..50; per sponsor 2 self-paid txs and 3 fee-delegated txs whose Auth.Actor() differs from Auth.Sponsor(): the actor is the next sponsor, the previous sponsor, or a pure actor account that never bonds anything): (a) every sequence up to length L of {bond t0/t1 at two rates, unbond t0/t1, set a small/large maximum} on one sponsor (exhaustive; t1 is delegated), (a2) every sequence up to length L of {bond, unbond} x {t1 (sponsor 0, actor = sponsor 1), t5 (sponsor 1, self-paid), t6 (sponsor 1, actor = sponsor 2), t7 (sponsor 1, actor never bonds)} (exhaustive), (b) random direct Bonder histories (setmax / bond / unbond, a third of the bonds and most unbonds re-use an earlier tx), (c) random fdsmr.Node histories (BuildChunk with duplicates within and across chunks, Accept with scripted executed chunks and block timestamps that expire txs, scripted inner DSMR errors) over the real Bonder on memdb. Every Bond/Unbond return value and the pending balance of every account (3 sponsors + 3 pure actors) after every step are compared with a map model keyed on the SPONSOR (sum of fees, computed with math/big, of the sponsor's bonded txs neither accepted nor expired; an account that sponsors nothing stays at zero); a Bond/Unbond call may change the pending balance of the tx's sponsor only. Non-trivial = the history bonds a tx again (while its bond is live or after it settled) or releases the bond of a fee-delegated tx; distinct = distinct op sequence.")
 	r.Assume(
-		"the pending balance is read from the bonder's database under the sponsor address (the observation point named by the property)",
+		"the pending balance is read from the bonder's database under the account address (the observation point named by the property); the bond of a tx belongs to its sponsor (tx.GetSponsor()), never to its actor",
 		"re-bonding a tx whose bond is live may keep the first fee or replace it by the new fee (the statement fixes neither); charging it a second time is a violation because it is still one bonded transaction",
 		"pending <= max is only demanded when a Bond call raised the pending balance (lowering the maximum below the pending balance is not a violation)",
 		"a Bond call that returns false is never a violation by itself (the statement does not say when a bond must be granted)",
@@ -763,7 +828,12 @@ func TestC38(t *testing.T) {
 		total.innerErrs += s.innerErrs
 		total.keptFee += s.keptFee
 		total.replacedFee += s.replacedFee
-		if m.nontrivia {
+		total.delegBondsOK += s.delegBondsOK
+		total.delegReleases += s.delegReleases
+		total.delegActorLiveSponsor += s.delegActorLiveSponsor
+		total.delegActorNoBond += s.delegActorNoBond
+		total.delegActorPure += s.delegActorPure
+		if m.nontrivia || m.delegated {
 			r.Distinct(c.shape())
 			r.Sample(c)
 		}
@@ -777,6 +847,11 @@ func TestC38(t *testing.T) {
 		r.Count("rebonds_after_settlement", total.rebondAfterSettle)
 		r.Count("unbonds_releasing", total.unbondEffective)
 		r.Count("unbonds_noop", total.unbondNoop)
+		r.Count("delegated_bonds_granted", total.delegBondsOK)
+		r.Count("delegated_releases", total.delegReleases)
+		r.Count("delegated_releases_actor_is_sponsor_with_live_bonds", total.delegActorLiveSponsor)
+		r.Count("delegated_releases_actor_is_sponsor_without_bond", total.delegActorNoBond)
+		r.Count("delegated_releases_actor_never_bonds", total.delegActorPure)
 		r.Count("node_accepts", total.accepts)
 		r.Count("node_settled_by_accept", total.settledByAccept)
 		r.Count("node_settled_by_expiry", total.settledByExpiry)
@@ -828,6 +903,40 @@ func TestC38(t *testing.T) {
 	rec(nil)
 	r.Count("exhaustive_direct_histories", exhaustive)
 	r.Extra("exhaustive_max_len", L)
+
+	// (a2) exhaustive small scope on fee-delegated txs: t1 (sponsor 0, actor = sponsor 1),
+	// t5 (sponsor 1, self-paid), t6 (sponsor 1, actor = sponsor 2), t7 (sponsor 1, actor = pure actor 4)
+	d0, d1, d2, d3 := 1, c38TxsPerSponsor, c38TxsPerSponsor+1, c38TxsPerSponsor+2
+	alphabet2 := []c38Op{
+		{Kind: "bond", Tx: d0, Rate: 1},
+		{Kind: "bond", Tx: d1, Rate: 2},
+		{Kind: "bond", Tx: d2, Rate: 1},
+		{Kind: "bond", Tx: d3, Rate: 1},
+		{Kind: "unbond", Tx: d0},
+		{Kind: "unbond", Tx: d1},
+		{Kind: "unbond", Tx: d2},
+		{Kind: "unbond", Tx: d3},
+	}
+	exhaustive2 := 0
+	var rec2 func(prefix []c38Op)
+	rec2 = func(prefix []c38Op) {
+		if r.Violations() >= 20 {
+			return
+		}
+		if len(prefix) > 0 {
+			c := c38Case{Mode: "direct", Ops: append([]c38Op{{Kind: "setmax", Sponsor: 0, Max: 1 << 40}, {Kind: "setmax", Sponsor: 1, Max: 1 << 40}}, prefix...)}
+			judge(c)
+			exhaustive2++
+		}
+		if len(prefix) == L {
+			return
+		}
+		for _, o := range alphabet2 {
+			rec2(append(prefix, o))
+		}
+	}
+	rec2(nil)
+	r.Count("exhaustive_delegated_histories", exhaustive2)
 
 	// (b) random direct histories, (c) random node histories
 	rngD := r.Rand("direct")
